@@ -888,6 +888,50 @@ Definition keys_ok (C : cfg) (keys : list string) : bool :=
   nodupb keys &&
   forallb (fun k => String.eqb (py_field_name C k) k || negb (mem (py_field_name C k) keys)) keys.
 
+(* ---- repeated response keys: allowed for leaf selections of one field (no merge needed) ---- *)
+Definition count_key (k : string) (keys : list string) : nat := List.length (filter (String.eqb k) keys).
+
+Definition is_leaf_sel (f : fnode) : bool := match fn_sub f with None => true | Some _ => false end.
+
+Definition dup_ok (fns : list fnode) : bool :=
+  forallb (fun f => Nat.eqb (count_key (field_key f) (map field_key fns)) 1 ||
+                    (is_leaf_sel f &&
+                     forallb (fun g => negb (String.eqb (field_key g) (field_key f)) ||
+                                       String.eqb (fn_name g) (fn_name f)) fns)) fns.
+
+Definition keys_okD (C : cfg) (fns : list fnode) : bool :=
+  dup_ok fns &&
+  forallb (fun k => String.eqb (py_field_name C k) k || negb (mem (py_field_name C k) (map field_key fns)))
+          (map field_key fns).
+
+Lemma count_nodup k l : NoDup l -> In k l -> count_key k l = 1.
+Proof.
+  unfold count_key. induction l as [|x l IH]; intros Hnd Hin; [contradiction|].
+  inversion Hnd; subst. simpl. destruct Hin as [E | Hin].
+  - subst x. rewrite String.eqb_refl. simpl. f_equal.
+    assert (G : forall m, ~ In k m -> filter (String.eqb k) m = []).
+    { induction m as [|y m IHm]; simpl; intro Hn; [reflexivity|].
+      rewrite eqb_neq_false; [apply IHm | ]; intuition. }
+    rewrite G; auto.
+  - rewrite eqb_neq_false; [apply IH; auto|]. intro E. subst x. contradiction.
+Qed.
+
+Lemma keys_ok_D C fns : keys_ok C (map field_key fns) = true -> keys_okD C fns = true.
+Proof.
+  unfold keys_ok, keys_okD. intro H. apply andb_true_iff in H as [H1 H2]. rewrite H2, andb_true_r.
+  apply nodupb_NoDup in H1. apply forallb_forall. intros f Hf.
+  rewrite (count_nodup _ _ H1 (in_map field_key _ _ Hf)). reflexivity.
+Qed.
+
+(* the key guard of a selection set: pairwise distinct keys where Python names must be distinct too
+   (cov: preservation, strictness, abstract positions); for acceptance alone a key may repeat among leaf
+   selections of one field (the class body's last definition wins, all of them carry the same annotation) *)
+Definition keys_okG (cov : bool) (C : cfg) (fns : list fnode) : bool :=
+  if cov then keys_ok C (map field_key fns) else keys_okD C fns.
+
+Lemma keys_okG_D cov C fns : keys_okG cov C fns = true -> keys_okD C fns = true.
+Proof. destruct cov; simpl; [apply keys_ok_D | auto]. Qed.
+
 Fixpoint gtype_eqb (a b : gtype) : bool :=
   match a, b with
   | TNamed x, TNamed y => String.eqb x y
@@ -996,7 +1040,7 @@ Fixpoint sels_ok (fuel : nat) (cov : bool) (C : cfg) (S : schema) (frs : list fr
   | Datatypes.S g =>
       match flatten g S frs rt r sels with
       | Some fns =>
-          keys_ok C (map field_key fns) &&
+          keys_okG cov C fns &&
           (negb cov || nodupb (map (fun f => py_field_name C (field_key f)) fns)) &&
           forallb (field_ok (sels_ok g cov C S frs mx) g cov S mx abs rt r) fns
       | None => false
